@@ -25,7 +25,11 @@ RULE = ('2-4 WorldHandle subclasses whose transform functions build a world '
         'on_switch_in once in the instance that runs, after its load-time '
         'callbacks and before its first process, left worlds deliver nothing '
         'until re-entered. Non-trivial = >=2 switches with a return to a '
-        'previously left world that had events queued, or any clear flag.')
+        'previously left world that had events queued, or any clear flag. '
+        'Chain sub-workload: the world being entered asks, from its '
+        'on_switch_in / pending on_add / on_world_load / a held event, to '
+        'switch on (1-3 links): the loop must end up processing the last '
+        'target only.')
 ANCHORS = [
     'desper/loop.py::switch',
     'desper/loop.py::Loop.switch',
@@ -44,9 +48,12 @@ EXHAUSTIVE = {
 ASSUMPTIONS = [
     "don't-care: number of loads; order of on_switch_in relative to "
     'unrelated pending events of the entered world',
-    'not generated: a switch requested by a callback the loop itself releases '
-    'while executing a switch; coroutine issuers are one-shot per world '
-    'instance',
+    'a switch requested by a callback the loop itself releases while '
+    'executing a switch (entry callbacks of the world being entered) is '
+    'judged by the chain sub-workload only: which world finally runs, '
+    'on_switch_out once per world left, on_switch_in once in the world that '
+    'runs; whether an intermediate world still receives its own on_switch_in '
+    'is not judged; coroutine issuers are one-shot per world instance',
     'for raw raise SwitchWorld only the which-world-runs clauses are judged',
 ]
 
@@ -89,6 +96,8 @@ def gen_cases(tier, seed):
                'own_loop': rng.random() < 0.3,
                # worlds are instances of a World subclass that is falsy
                'falsy_world': rng.random() < 0.3}
+    for i in range(400 if tier == 'quick' else 16 * 2000):
+        yield gen_chain(random.Random(f'C13/chain/{seed}/{tier}/{i}'))
     for i in range(3 if tier == 'quick' else 48):
         rng = random.Random(f'C13/scale/{seed}/{tier}/{i}')
         yield {'handles': 2, 'flood': 300, 'falsy_world': i % 2 == 1,
@@ -104,7 +113,228 @@ def gen_cases(tier, seed):
                            'delay': 0}]}
 
 
+CHAIN_AT = ['on_switch_in', 'on_add', 'on_world_load', 'held_event']
+
+
+def gen_chain(rng):
+    """A switch requested by a callback that the loop itself releases while
+    it executes a switch (entry callbacks of the world being entered)."""
+    depth = rng.randint(1, 3)
+    return {'mode': 'chain',
+            'links': [{'at': rng.choice(CHAIN_AT), 'cc': rng.random() < 0.25,
+                       'cn': rng.random() < 0.25,
+                       'explicit': rng.random() < 0.5}
+                      for _ in range(depth)],
+            'first': {'cc': rng.random() < 0.25, 'cn': rng.random() < 0.25,
+                      'issuer': rng.choice(['proc', 'on_update'])},
+            'frames_after': rng.randint(1, 3),
+            'own_loop': rng.random() < 0.25}
+
+
+def run_chain(case):
+    desper = import_desper()
+    res = Res()
+    log = []
+    st = {'clock': 0, 'uid': 0, 'link': 0, 'fired_first': False,
+          'frames_after': 0}
+    links = case['links']
+    nh = len(links) + 2
+    instances = {}
+
+    def entry(kind, w, **kw):
+        log.append(dict(kind=kind, w=w, seq=len(log), **kw))
+
+    def time_function():
+        st['clock'] += 1
+        if st['clock'] > 100:
+            raise HarnessError('chain scenario did not end')
+        return st['clock']
+
+    loop = desper.SimpleLoop(time_function)
+
+    def chain(world, at):
+        """Called from the entry callbacks of handle k+1: request link k."""
+        k = st['link']
+        h = handles[world.handle_index]
+        if k >= len(links) or world.handle_index != k + 1 \
+                or links[k]['at'] != at or not st['fired_first'] \
+                or not (h.cached and h() is world):
+            # (an instance discarded by a clear flag stays silent)
+            return
+        st['link'] += 1
+        link = links[k]
+        target = handles[k + 2]
+        entry('request', world.uid, link=k, at=at,
+              current_is_world=loop.current_world is world)
+        kwargs = {}
+        if link['explicit'] or case['own_loop']:
+            kwargs['from_world'] = world
+        desper.switch(target, clear_current=link['cc'], clear_next=link['cn'],
+                      **kwargs)
+
+    @desper.event_handler('on_add', 'on_world_load', 'on_switch_in',
+                          'on_switch_out', 'on_update', 'probe')
+    class Logger:
+        def on_add(self, entity, world):
+            self.world = world
+            entry('on_add', world.uid)
+            chain(world, 'on_add')
+
+        def on_world_load(self, handle, world):
+            entry('on_world_load', world.uid)
+            chain(world, 'on_world_load')
+
+        def on_switch_in(self, from_world, to_world):
+            entry('on_switch_in', self.world.uid,
+                  frm=getattr(from_world, 'uid', None),
+                  to=getattr(to_world, 'uid', None))
+            chain(self.world, 'on_switch_in')
+
+        def on_switch_out(self, from_world, to_world):
+            entry('on_switch_out', self.world.uid,
+                  frm=getattr(from_world, 'uid', None),
+                  to=getattr(to_world, 'uid', None))
+
+        def on_update(self, dt):
+            entry('on_update', self.world.uid)
+            fire_first(self.world, 'on_update')
+
+        def probe(self, token):
+            entry('probe', self.world.uid, token=token)
+            chain(self.world, 'held_event')
+
+    def fire_first(world, issuer):
+        if st['fired_first'] or case['first']['issuer'] != issuer:
+            return
+        st['fired_first'] = True
+        entry('request', world.uid, link=-1, at=issuer,
+              current_is_world=True)
+        target = handles[1]
+        # the worlds of the chain are loaded (their load-time callbacks
+        # stay pending) and sent an event that they hold
+        for k, link in enumerate(links):
+            h = handles[k + 1]
+            if link['at'] == 'held_event' and not (
+                    (case['first']['cn'] and k == 0)
+                    or (k > 0 and links[k - 1]['cn'])):
+                w = h()
+                w.dispatch('probe', 99)
+        st['armed_all'] = True
+        kwargs = {'from_world': world} if case['own_loop'] else {}
+        desper.switch(target, clear_current=case['first']['cc'],
+                      clear_next=case['first']['cn'], **kwargs)
+
+    class Issuer(desper.Processor):
+        def process(self, dt=1):
+            w = self.world
+            entry('process_start', w.uid,
+                  is_current=loop.current_world is w,
+                  handle_ok=loop.current_world_handle
+                  is handles[w.handle_index])
+            if st['fired_first'] and st['link'] >= len(links) \
+                    and w.handle_index == nh - 1:
+                st['frames_after'] += 1
+                if st['frames_after'] >= case['frames_after']:
+                    raise desper.Quit()
+            elif st['fired_first']:
+                # a world of the chain was processed although its entry
+                # callbacks had asked to go on: judged from the log
+                if st['clock'] > 50:
+                    raise desper.Quit()
+            fire_first(w, 'proc')
+
+    def build(handle, world):
+        st['uid'] += 1
+        world.uid = st['uid']
+        world.handle_index = handle.index
+        instances[world.uid] = world
+        entry('load', world.uid, handle=handle.index)
+        world.add_processor(Issuer())
+        world.create_entity(Logger())
+
+    class LH(desper.WorldHandle):
+        def __init__(self, index):
+            super().__init__()
+            self.index = index
+            self.transform_functions.append(
+                desper.default_processors_transformer)
+            self.transform_functions.append(build)
+
+    handles = [LH(i) for i in range(nh)]
+    saved = desper.default_loop
+    if not case['own_loop']:
+        desper.default_loop = loop
+    outcome = 'returned'
+    try:
+        loop.switch(handles[0])
+        loop.start()
+    except Exception as ex:
+        outcome = f'{type(ex).__name__}: {ex}'
+    finally:
+        desper.default_loop = saved
+    res.stats['chained_switch_runs'] += 1
+    res.tags['chain_shape'].add(tuple(l['at'] for l in links))
+    tail = [_short(e) for e in log[-8:]]
+    if outcome != 'returned':
+        res.div(len(log), 'chain-run-raised', 'a switch requested by an '
+                'entry callback of the world being entered ended the loop: '
+                + outcome, 'start() returns after Quit', outcome, tail=tail)
+        return res
+    requests = [e for e in log if e['kind'] == 'request']
+    if len(requests) != len(links) + 1:
+        # a link did not fire (e.g. its world instance was replaced by a
+        # clear flag before it could act): nothing to judge
+        res.stats['chain_incomplete'] += 1
+        res.sample = {'log': [_short(e) for e in log[:30]]}
+        return res
+    res.stats['switch_requests_checked'] += len(requests)
+    last = requests[-1]
+    frames = [e for e in log if e['kind'] == 'process_start'
+              and e['seq'] > requests[0]['seq']]
+    final_handle = nh - 1
+    bad = [e for e in frames
+           if instances[e['w']].handle_index != final_handle
+           or not e['is_current'] or not e['handle_ok']]
+    if bad or not frames:
+        res.div(len(log), 'chain-wrong-world-runs', 'after a chain of switch '
+                'requests the iterations must process the last target only',
+                f'handle {final_handle}', [_short(e) for e in (bad or frames)]
+                [:3], tail=tail)
+        return res
+    W = frames[0]['w']
+    # every request: on_switch_out once in the world that asked, with it as
+    # first argument, before anything of the next world runs
+    for r in requests:
+        outs = [e for e in log if e['kind'] == 'on_switch_out'
+                and e['frm'] == r['w']]
+        if [(e['w'],) for e in outs] != [(r['w'],)]:
+            res.div(r['seq'], 'chain-switch-out', 'on_switch_out must be '
+                    'delivered exactly once in the world being left',
+                    [r['w']], [_short(e) for e in outs], tail=tail)
+            return res
+    ins = [e for e in log if e['kind'] == 'on_switch_in' and e['w'] == W]
+    if [(e['frm'], e['to']) for e in ins] != [(last['w'], W)] \
+            or ins[0]['seq'] > frames[0]['seq']:
+        res.div(last['seq'], 'chain-switch-in', 'on_switch_in(from, to) must '
+                'be delivered once in the world that finally runs, before '
+                'its first frame', [(last['w'], W)],
+                [_short(e) for e in ins], tail=tail)
+        return res
+    # intermediate worlds were left again: they hold whatever they get
+    for e in log:
+        if e['kind'] in ('on_update',) and e['seq'] > requests[0]['seq'] \
+                and e['w'] != W:
+            res.div(e['seq'], 'chain-left-world-delivered', 'a world that '
+                    'was left delivered an event', 'held', _short(e))
+            return res
+    res.nontrivial = True
+    res.sample = {'log': [_short(e) for e in log[:30]]}
+    return res
+
+
 def run_case(case):
+    if case.get('mode') == 'chain':
+        return run_chain(case)
     desper = import_desper()
     res = Res()
     log = []
@@ -483,6 +713,20 @@ def _reentered_later(requests, script, r, handle_index):
 
 
 def shrink(case):
+    if case.get('mode') == 'chain':
+        links = case['links']
+        if len(links) > 1:
+            yield dict(case, links=links[:-1])
+        for i, l in enumerate(links):
+            for key in ('cc', 'cn', 'explicit'):
+                if l[key]:
+                    new = [dict(x) for x in links]
+                    new[i][key] = False
+                    yield dict(case, links=new)
+        for key in ('cc', 'cn'):
+            if case['first'][key]:
+                yield dict(case, first=dict(case['first'], **{key: False}))
+        return
     script = case['script']
     for i in range(len(script)):
         if len(script) > 1:
